@@ -20,6 +20,7 @@ type muxRig struct {
 	cli, srv *Session
 	ca, sa   []*vnet.Conn // client-side / server-side ends
 	unit     int
+	wlimit   int
 }
 
 type rigCfg struct {
@@ -31,12 +32,13 @@ type rigCfg struct {
 	inactivity time.Duration
 	cliValve   Valve
 	srvValve   Valve
+	wlimit     int // > 0: a connection end's Write blocks while this many bytes are still unread by the peer (back-pressure)
 }
 
 var rigKey = [32]byte{1, 2, 3, 4, 5, 6, 7, 8, 9, 10, 11, 12, 13, 14, 15, 16, 17, 18, 19, 20, 21, 22, 23, 24, 25, 26, 27, 28, 29, 30, 31, 32}
 
 func newMuxRig(cfg rigCfg) *muxRig {
-	r := &muxRig{net: vnet.New(), unit: cfg.unit}
+	r := &muxRig{net: vnet.New(), unit: cfg.unit, wlimit: cfg.wlimit}
 	limit := 0
 	if cfg.unit > 0 {
 		limit = cfg.unit + frameHeaderLength + maxExtraLen
@@ -63,6 +65,10 @@ func newMuxRig(cfg rigCfg) *muxRig {
 // addPair creates one more underlying connection and attaches both ends.
 func (r *muxRig) addPair() {
 	a, b := r.net.Pair(fmt.Sprintf("c%d", len(r.ca)), true)
+	if r.wlimit > 0 {
+		a.SetWriteLimit(r.wlimit)
+		b.SetWriteLimit(r.wlimit)
+	}
 	r.ca = append(r.ca, a)
 	r.sa = append(r.sa, b)
 	r.srv.AddConnection(b)
